@@ -4,6 +4,7 @@ use std::path::Path;
 pub mod c09;
 pub mod c10;
 pub mod c12;
+pub mod c33;
 pub mod c16;
 pub mod c18;
 pub mod c19;
@@ -50,6 +51,7 @@ pub fn for_property(p: &str) -> Vec<Suite> {
         "C13" => c12::suites_c13(),
         "C14" => c12::suites_c14(),
         "C15" => c12::suites_c15(),
+        "C33" => c33::suites(),
         "C22" => c22::suites(),
         "C34" => c34::suites(),
         "C29" => c29::suites(),
